@@ -380,7 +380,75 @@ pub fn run(ctx: &Ctx) -> Outcome {
             out
         });
     }
+    if want("multi-batch-order") {
+        // directed: the racing replica's pending list needs several versions AND its order
+        // matters across the batch boundary (a task created in the first batch and updated in a
+        // later one; one property set twice with the later operation carrying the earlier
+        // timestamp); the other replica's small version lands somewhere in between
+        let (lo, hi) = range(ctx.tier.pick(40, 2000));
+        run_cases(&mut acc, "multi-batch-order", hi - lo, |i| {
+            let i = i + lo;
+            let mut rng = Rng::derive(seed, "c02-mbo", i);
+            let bigv = |tag: &str, rng: &mut Rng| -> String {
+                let mut v = format!("{tag}-");
+                v.extend(std::iter::repeat('y').take(400_000 + rng.below(400_000)));
+                v
+            };
+            let u0 = rng.uuid();
+            let tn = rng.uuid();
+            let u1 = rng.uuid();
+            let mut prior = vec![Act::Commit { r: 0, ops: vec![AbsOp::Set(u0, "p0".into(), "0".into(), ts(0))] }, Act::Sync { r: 0 }, Act::Sync { r: 1 }];
+            let mut ops = vec![];
+            match i % 3 {
+                0 => {
+                    ops.push(AbsOp::Set(tn, "a".into(), "small".into(), ts(10)));
+                    for (k, prop) in ["b", "c", "d"].iter().enumerate().take(2 + rng.below(2)) {
+                        ops.push(AbsOp::Set(tn, prop.to_string(), bigv(&format!("B{k}"), &mut rng), ts(11 + k as i64)));
+                    }
+                    ops.push(AbsOp::Set(tn, "e".into(), "tail".into(), ts(20)));
+                }
+                1 => {
+                    ops.push(AbsOp::Set(u0, "p".into(), bigv("first", &mut rng), ts(20)));
+                    ops.push(AbsOp::Set(u0, "q".into(), bigv("filler", &mut rng), ts(20)));
+                    ops.push(AbsOp::Set(u0, "p".into(), bigv("second-with-earlier-timestamp", &mut rng), ts(10)));
+                    ops.push(AbsOp::Set(u0, "r".into(), "tail".into(), ts(5)));
+                }
+                _ => {
+                    for k in 0..(3 + rng.below(4)) {
+                        let t = if rng.chance(1, 2) { tn } else { u0 };
+                        let prop = format!("p{}", rng.below(2));
+                        let v = if rng.chance(3, 5) { bigv(&format!("M{k}"), &mut rng) } else { format!("s{k}") };
+                        ops.push(match rng.below(8) {
+                            0 => AbsOp::Delete(t),
+                            1 => AbsOp::Remove(t, prop, ts(rng.range(0, 30))),
+                            _ => AbsOp::Set(t, prop, v, ts(rng.range(0, 30))),
+                        });
+                    }
+                }
+            }
+            prior.push(Act::Commit { r: 0, ops });
+            prior.push(Act::Commit { r: 1, ops: vec![if rng.chance(1, 2) { AbsOp::Set(u1, "x".into(), "other".into(), ts(15)) } else { AbsOp::Set(u0, "other".into(), "x".into(), ts(15)) }] });
+            let mut out = CaseOut::new();
+            for sched in 0..4u64 {
+                let mut src: Box<dyn DecisionSource> = match &replay_sched {
+                    Some(s) => Box::new(ReplaySource { clients: s.clone() }),
+                    None => Box::new(RandomSource { rng: Rng::derive(seed, "c02-mbo-sched", i * 16 + sched), delay_client: Some(0) }),
+                };
+                if let Some(r) = race("multi-batch-order", i, 2, &prior, &[0, 1], src.as_mut(), &mut out, json!({"sched": sched})) {
+                    if r.rejections > 0 {
+                        out.nontrivial = Some(r.trace_hash);
+                        out.count("multi_batch_order_races_with_rejection", 1);
+                    }
+                }
+                if !out.violations.is_empty() || replay_sched.is_some() {
+                    break;
+                }
+            }
+            out
+        });
+    }
     if only.is_none() {
+        acc.require("multi_batch_order_races_with_rejection", 10, "too few multi-batch races in which a version was rejected");
         acc.require("schedules_with_rejection", 100, "too few schedules in which an add_version was rejected");
         acc.require("schedules_with_two_rejections_in_one_call", 1, "no sync call was rejected twice");
     }
@@ -389,7 +457,7 @@ pub fn run(ctx: &Ctx) -> Outcome {
     let _ = Tier::Quick;
     Outcome {
         level: "exploration",
-        rule: "prior history (shared synced prefix, some replicas ahead, 0-6 conflicting pending operations per replica; big-value stratum with several batches) then one raced phase of 2-4 concurrent Replica::sync calls under the request-level scheduler: DFS-exhaustive for two racers over many prior histories, seeded random (half with a delay-one-client bias) for 3-4 racers, plus the F4b schedule as corpus; then sequential quiescence; non-trivial = a schedule in which at least one add_version was rejected; distinct by hash of the (client, request) sequence (for DFS strata one representative per prior history is counted in distinct_nontrivial; the full number is in distinct_schedules_with_rejection_in_dfs)".into(),
+        rule: "prior history (shared synced prefix, some replicas ahead, 0-6 conflicting pending operations per replica; big-value stratum with several batches; directed multi-batch-order stratum where the order of the pending list matters across the batch boundary) then one raced phase of 2-4 concurrent Replica::sync calls under the request-level scheduler: DFS-exhaustive for two racers over many prior histories, seeded random (half with a delay-one-client bias) for 3-4 racers, plus the F4b schedule as corpus; then sequential quiescence; non-trivial = a schedule in which at least one add_version was rejected; distinct by hash of the (client, request) sequence (for DFS strata one representative per prior history is counted in distinct_nontrivial; the full number is in distinct_schedules_with_rejection_in_dfs)".into(),
         exhaustive: None,
         acc,
         assumptions: vec![
